@@ -69,6 +69,7 @@ structure Claims where
   exp : NumV := .absent
   iat : NumV := .absent
   sub : SubV := .absent
+  nbf : NumV := .absent           -- "not before" (fix F-C11-nbf-ignored: checked after exp and iat)
   deriving DecidableEq, Repr, Inhabited
 
 /-- outcome of decoding one JWT segment. `undefined` = the harness did not describe this
@@ -99,6 +100,7 @@ inductive Rej
   | trailing        -- bytes after the last field
   | tokEmpty | tokFormat | hdr | kid | noKey | payload
   | expired | tooOld | badTime | subType | noSub
+  | notYet          -- `nbf` lies in the future
   | idMismatch | nonceMismatch | mac
   | load            -- client: no usable token
   | sigEnc | sig    -- VerifyIDToken only
@@ -111,7 +113,7 @@ def Rej.name : Rej → String
   | .hdr => "hdr" | .kid => "kid" | .noKey => "noKey" | .payload => "payload" | .expired => "expired"
   | .tooOld => "tooOld" | .badTime => "badTime" | .subType => "subType" | .noSub => "noSub"
   | .idMismatch => "idMismatch" | .nonceMismatch => "nonceMismatch" | .mac => "mac" | .load => "load"
-  | .sigEnc => "sigEnc" | .sig => "sig" | .undefinedSeg => "undefinedSeg"
+  | .sigEnc => "sigEnc" | .sig => "sig" | .undefinedSeg => "undefinedSeg" | .notYet => "notYet"
 
 /-- `net`: wrapped in `ErrNetwork` — the authentication function returns at once;
     `auth`: stored by `storeAuthError`, the exchange is completed, then reported -/
@@ -322,7 +324,12 @@ where
   checkIat : Except Rej Unit :=
     match c.iat with
     | .bad => .error .badTime
-    | .num i => if maxAge > 0 ∧ i < now - maxAge then .error .tooOld else .ok ()   -- fix: no `now - iat` overflow
+    | .num i => if maxAge > 0 ∧ i < now - maxAge then .error .tooOld else checkNbf   -- fix: no `now - iat` overflow
+    | .absent => checkNbf
+  checkNbf : Except Rej Unit :=
+    match c.nbf with
+    | .bad => .error .badTime
+    | .num n => if now < n then .error .notYet else .ok ()
     | .absent => .ok ()
 
 /-! ### token structure -/
